@@ -35,9 +35,14 @@ def run(rep: Report, tier: str) -> None:
     fi = prog.func(CD, "ComputedData._create_yearly_gain_loss_list")
     rep.analysed(fi)
     ctx = norm.ctx_for(fi, subst_locals=False)
+    from ..groupby import check_groupby
+
+    rg = rep.rule("C06.g", "no order-sensitive grouping: itertools.groupby only over input sorted by the same key", floor=0)
+    check_groupby(rep, rg, prog, (CD,), "fractions of a (local) year that is met twice contribute to no summary line, so lines and grand totals come out too small")
     loops = [n for n in fi.node.body if isinstance(n, ast.For)]
     if len(loops) < 2:
-        raise AnalysisError(f"{fi.qualname}: expected the grouping loop and the line-building loop, found {len(loops)} loops")
+        rep.defer_error(f"{fi.qualname}: expected the grouping loop and the line-building loop, found {len(loops)} loops")
+        return
     group, build = loops[0], loops[1]
     gl_cls = prog.cls("rp2.gain_loss", "GainLoss")
     if not isinstance(group.target, ast.Name):
